@@ -247,10 +247,18 @@ def build(case):
     if case.get("prior"):
         doc.add(0, "H9:")
         doc.add(0, "RESUME NEXT")
+    mods = list(case.get("mods") or []) + ["plain"] * len(chain)
     for level, kind in enumerate(chain):
         noise(lay["pre"])
         name = "P%d" % (level + 1)
-        doc.add(0, ("SUB %s (N%%)" if kind == "sub" else "FUNCTION %s%% (N%%)") % name)
+        doc.add(0, ("SUB %s (N%%)" if kind == "sub" else "FUNCTION %s%% (N%%)") % name + (" STATIC" if mods[level] == "static" else ""))
+        if mods[level] == "rec":
+            # two more activations through one call site before the body proper
+            doc.add(1, "IF N% < 200 THEN")
+            rcall = ("%s N%% + 100" % name) if kind == "sub" else ("R%% = %s%%(N%% + 100)" % name)
+            doc.lines.append((2, [(rcall, "rsite%d" % level)], None))
+            doc.add(2, "EXIT SUB" if kind == "sub" else "EXIT FUNCTION")
+            doc.add(1, "END IF")
         scope_body(level + 1, doc, 1)
         doc.add(0, "END SUB" if kind == "sub" else "END FUNCTION")
     # helper procedures used by some faults
@@ -303,5 +311,10 @@ def emit(doc, case):
         out.append(s + eol)
         pos += len(s) + len(eol)
     text = "".join(out)
-    sites = [marks["site%d" % l] for l in reversed(range(len(case["chain"])))]
+    mods = list(case.get("mods") or []) + ["plain"] * len(case["chain"])
+    sites = []
+    for l in reversed(range(len(case["chain"]))):
+        if mods[l] == "rec":
+            sites += [marks["rsite%d" % l], marks["rsite%d" % l]]
+        sites.append(marks["site%d" % l])
     return {"text": text, "stmt": marks["stmt"], "term": marks["term"], "sites": sites}
